@@ -3,10 +3,15 @@ From WI Require Import Lib.Base Lib.Info Model.Safety.
 Open Scope N_scope.
 
 (* The model's prediction for every input: inspection terminates normally (outcome class 0),
-   the CLI prints one report (starting "path: ", ending in a line terminator) and exits 0. *)
+   the CLI prints exactly one report (starting "path: ", ending in a line terminator) and exits 0.
+   inspect: input (name data), observation (class detail)   class 0 ok, 2 panic, 3 fatal, 4 deadline, 5 memory
+   cli:     input (path data), observation (exit-status starts-with-path ends-with-newline reports)
+            reports = number of report heads (output lines that do not start with a space) printed for the file;
+            for the structured families the data is the inspect case of the same run named in the input, and is
+            repeated in the input only when the observation is not the expected one. *)
 Definition run_C01 (op : bytes) (input : arg) : arg :=
   if bytes_eqb op (bs "inspect") then AL [AZ 0; AB []]
-  else if bytes_eqb op (bs "cli") then AL [AZ 0; AZ 1; AZ 1]
+  else if bytes_eqb op (bs "cli") then AL [AZ 0; AZ 1; AZ 1; AZ 1]
   else AL [].
 
 Definition check_C01 (op : bytes) (input impl : arg) : arg :=
@@ -23,5 +28,6 @@ Definition check_C01 (op : bytes) (input impl : arg) : arg :=
     if negb (Z.eqb (arg_Z (arg_nth 0 impl)) 0) then AS "command-line tool exited with non-zero status"
     else if negb (arg_bool (arg_nth 1 impl)) then AS "command-line tool did not print a report for the file"
     else if negb (arg_bool (arg_nth 2 impl)) then AS "report not terminated"
+    else if negb (Z.eqb (arg_Z (arg_nth 3 impl)) 1) then AS "command-line tool did not print exactly one report for the file"
     else AL []
   else AL [].
